@@ -31,9 +31,10 @@ def shard_main(pid, specfile, outfile):
         ctx.inconc('shard %s: %s' % (spec.get('shard'), e))
     except Exception:
         ctx.inconc('shard %s: harness error: %s' % (spec.get('shard'), traceback.format_exc()[-1500:]))
-    rep = ctx.report()
-    with open(outfile, 'w') as f:
+    rep = core.jsonable(ctx.report())
+    with open(outfile + '.tmp', 'w') as f:
         json.dump(rep, f)
+    os.replace(outfile + '.tmp', outfile)
     return 0
 
 
@@ -63,7 +64,12 @@ def run_one_shard(pid, spec, tmpdir, idx, timeout):
                 'maxima': {}, 'info': {}, 'monitors': {}, 'wall_s': time.time() - t0,
                 'inconclusive': ['shard %s: interpreter died rc=%s: %s' % (
                     spec.get('shard'), p.returncode, (p.stderr or '')[-1200:])]}
-    rep = json.load(open(outfile))
+    try:
+        rep = json.load(open(outfile))
+    except ValueError as e:
+        return {'shard': spec.get('shard'), 'counters': {}, 'buckets': [], 'samples': [], 'viol': {},
+                'maxima': {}, 'info': {}, 'monitors': {}, 'wall_s': time.time() - t0,
+                'inconclusive': ['shard %s: unreadable report (%s)' % (spec.get('shard'), e)]}
     if p.stderr and os.environ.get('VERIF_DEBUG'):
         sys.stderr.write(p.stderr[-4000:])
     return rep
@@ -136,7 +142,7 @@ def conclude(pid, mod, tier, seed, m, wall):
         else:
             new.append((mech, v))
 
-    rdir = os.path.join(core.VERIF_ROOT, 'replays', pid)
+    rdir = os.path.join(os.environ.get('VERIF_REPLAY_DIR') or os.path.join(core.VERIF_ROOT, 'replays'), pid)
     if os.path.isdir(rdir):
         for fn in os.listdir(rdir):
             if fn.endswith('.json'):
@@ -184,7 +190,7 @@ def conclude(pid, mod, tier, seed, m, wall):
         'wall_s': round(wall, 2),
         'violations': sum(v['count'] for _, v in new),
     }
-    edir = os.path.join(core.VERIF_ROOT, 'evidence')
+    edir = os.environ.get('VERIF_EVIDENCE_DIR') or os.path.join(core.VERIF_ROOT, 'evidence')
     os.makedirs(edir, exist_ok=True)
     with open(os.path.join(edir, pid + '.json'), 'w') as f:
         json.dump(core.jsonable(ev), f, indent=1, sort_keys=False)
